@@ -4,7 +4,7 @@ SHA-256 (FIPS 180-4) over byte lists, for the driver only: `hash_fingerprint` in
 fingerprint string; this file is validated by the `#guard`s at its end (standard vectors) and by the
 correspondence run (every emitted fingerprint's hash is compared with the sha2 crate's).
 -/
-namespace Huginn.Sha256
+namespace Huginn.H2Sha256
 
 def K : Array UInt32 := #[
   0x428a2f98, 0x71374491, 0xb5c0fbcf, 0xe9b5dba5, 0x3956c25b, 0x59f111f1, 0x923f82a4, 0xab1c5ed5,
@@ -77,4 +77,4 @@ def hexString (msg : List UInt8) : String :=
 #guard hexString ("abcdbcdecdefdefgefghfghighijhijkijkljklmklmnlmnomnopnopq".toUTF8.toList) =
   "248d6a61d20638b8e5c026930c3e6039a33ce45964ff2167f6ecedd419db06c1"
 
-end Huginn.Sha256
+end Huginn.H2Sha256
